@@ -26,7 +26,7 @@ ANCHORS = ["coxeter.shapes.convex_polygon:ConvexPolygon.distance_to_surface",
 REQUIRED_MONITORS = ["Circle.distance_to_surface", "Ellipse.distance_to_surface", "ConvexPolygon.distance_to_surface",
                      "ConvexSpheropolygon.distance_to_surface", "argument-unchanged"]
 REQUIRED_CLASSES = ["poly:regular", "poly:irregular", "poly:axis-aligned", "sphero:r=0", "sphero:r>0", "Ellipse", "Circle",
-                    "angles:ndarray:f", "angles:ndarray:i", "angles:list:int", "angles:list:float", "angles:tuple:float", "history:aged-object"]
+                    "angles:ndarray:f", "angles:ndarray:i", "angles:list:int", "angles:list:float", "angles:tuple:float", "history:aged-object", "curved:extreme-units"]
 
 
 def ncases(tier):
@@ -205,6 +205,10 @@ def run_case(i, rng, rec, tier, state):
     elif mode == 2:
         (r,), _ = gen.axes_case(rng, 1)
         cen, _ = gen.center_case(rng, r, dims=2)
+        u = gen.unit_factor(rng)
+        if u != 1.0:
+            r, cen = r * u, cen * u
+            rec.cls("curved:extreme-units")
         s = cs.Circle(r, cen)
         th = points.angles(rng, None, nth)
         cls = "Circle"
@@ -213,6 +217,10 @@ def run_case(i, rng, rec, tier, state):
     else:
         ax, _ = gen.axes_case(rng, 2)
         cen, _ = gen.center_case(rng, max(ax), dims=2)
+        u = gen.unit_factor(rng)
+        if u != 1.0:
+            ax, cen = [a * u for a in ax], cen * u
+            rec.cls("curved:extreme-units")
         s = cs.Ellipse(ax[0], ax[1], cen)
         th = points.angles(rng, np.array([0, np.pi / 2, np.pi, 1.5 * np.pi]), nth)
         cls = "Ellipse"
